@@ -204,8 +204,12 @@ Returns:
                 for i,j in enumerate(self._setSimplexWithinRangeBoundary()):
                     self.population[i+1] = self.population[0].copy()
                     self.population[i+1][i] = j
+                self._resim = True #NOTE: simplex was reset, energies are stale
             else:
-                self.population[0] = self._clipGuessWithinRangeBoundary(self.population[0])
+                x0 = self._clipGuessWithinRangeBoundary(self.population[0])
+                if len(self._stepmon) and numpy.any(x0 != self.population[0]):
+                    self._resim = True #NOTE: x0 was moved after evaluation
+                self.population[0] = x0
             cost = wrap_bounds(cost, self._strictMin, self._strictMax) #XXX: remove?
             from mystic.constraints import and_
             constraints = and_(self._constraints, self._strictbounds, onfail=self._strictbounds)
@@ -286,6 +290,9 @@ Notes:
             fsim = self.popEnergy
             x0 = sim[0]
             N = len(x0)
+            if getattr(self, '_resim', False): # x0 was moved by the bounds
+                self._resim = False
+                fsim[0] = cost(x0)
             # populate the simplex
             for k in range(0,N):
                 y = numpy.array(x0,copy=True)
@@ -300,6 +307,15 @@ Notes:
             fsim = self.popEnergy
             N = len(sim[0])
             one2np1 = range(1,N+1)
+
+            if getattr(self, '_resim', False): # evaluate the reset simplex
+                self._resim = False
+                for j in range(N+1):
+                    sim[j] = asarray(constraints(sim[j]), dtype='float64')
+                    fsim[j] = cost(sim[j])
+                ind = numpy.argsort(fsim)
+                sim = numpy.take(sim,ind,0)
+                fsim = numpy.take(fsim,ind,0)
 
             # apply constraints  #XXX: is this the only appropriate place???
             sim[0] = asarray(constraints(sim[0]), dtype='float64')
